@@ -100,12 +100,230 @@ def _properties(cls: ast.ClassDef) -> dict[str, ast.expr]:
     return out
 
 
+# ---------------------------------------------------------------------------------------------- attrs field definitions
+# Round 5: the constructor of an attrs class is GENERATED from its field definitions, so the converter / validator /
+# default / factory of every field and `__attrs_post_init__` are part of the constructor a copy() calls.  They are read
+# from the source (a converter that is a module-level function is resolved to its RUN-TIME definition and its body is
+# classified), never accepted by name.
+_WRAP_ORDER = ['direct', 'container', 'deepconv']          # what a converter does with the value it is given
+_DEFINE_KEYWORDS = {'auto_attribs', 'hash', 'eq', 'order', 'getstate_setstate', 'frozen', 'weakref_slot', 'slots', 'repr',
+                    'kw_only', 'unsafe_hash', 'init', 'str', 'cache_hash', 'auto_exc', 'match_args', 'collect_by_mro'}
+_FIELD_KEYWORDS_IGNORED = {'repr', 'eq', 'order', 'hash', 'metadata', 'type'}
+
+
+def _runtime_defs(module: ast.Module, name: str) -> list[ast.AST]:
+    """Every module-level definition of `name` that is executed at run time (`if TYPE_CHECKING:` bodies are not)."""
+    out: list[ast.AST] = []
+
+    def scan(body: list[ast.stmt]) -> None:
+        for st in body:
+            if isinstance(st, ast.FunctionDef) and st.name == name:
+                out.append(st)
+            elif isinstance(st, ast.ClassDef) and st.name == name:
+                out.append(st)
+            elif isinstance(st, ast.Assign) and any(isinstance(t, ast.Name) and t.id == name for t in st.targets):
+                out.append(st.value)
+            elif isinstance(st, ast.AnnAssign) and isinstance(st.target, ast.Name) and st.target.id == name and st.value is not None:
+                out.append(st.value)
+            elif isinstance(st, ast.If):
+                t = ast.unparse(st.test)
+                if t in ('TYPE_CHECKING', 'typing.TYPE_CHECKING'):
+                    scan(st.orelse)
+                elif t in ('not TYPE_CHECKING', 'not typing.TYPE_CHECKING'):
+                    scan(st.body)
+                else:
+                    scan(st.body)
+                    scan(st.orelse)
+            elif isinstance(st, ast.Try):
+                scan(st.body)
+                for h in st.handlers:
+                    scan(h.body)
+                scan(st.orelse)
+                scan(st.finalbody)
+    scan(module.body)
+    return out
+
+
+def _fn_result(fn: ast.FunctionDef | ast.Lambda, where: str) -> tuple[str, ast.expr]:
+    """(parameter name, the expression a one-parameter function returns); `if t: return A` + `return B` and
+    `if t: return A else: return B` are read as `A if t else B`."""
+    a = fn.args
+    if len(a.args) != 1 or a.vararg or a.kwarg or a.kwonlyargs or a.posonlyargs or a.defaults:
+        raise TranslateError(f'{where}: a converter must take exactly one positional parameter')
+    x = a.args[0].arg
+    if isinstance(fn, ast.Lambda):
+        return x, fn.body
+    if fn.decorator_list:
+        raise TranslateError(f'{where}: decorated converter function')
+    body = [st for st in fn.body if not (isinstance(st, ast.Expr) and isinstance(st.value, ast.Constant))]
+
+    def result(stmts: list[ast.stmt]) -> ast.expr:
+        if not stmts:
+            raise TranslateError(f'{where}: a path of the converter returns nothing')
+        st = stmts[0]
+        if isinstance(st, ast.Return) and st.value is not None:
+            return st.value
+        if isinstance(st, ast.If):
+            rest = stmts[1:]
+            then = result(st.body + rest) if not _always_returns(st.body) else result(st.body)
+            other = result((st.orelse or []) + rest) if not _always_returns(st.orelse or []) else result(st.orelse)
+            return ast.copy_location(ast.IfExp(test=st.test, body=then, orelse=other), st)
+        raise TranslateError(f'{where}: unrecognised statement `{ast.unparse(st)[:60]}` in a converter')
+    return x, result(body)
+
+
+def _always_returns(stmts: list[ast.stmt]) -> bool:
+    if not stmts:
+        return False
+    last = stmts[-1]
+    if isinstance(last, (ast.Return, ast.Raise)):
+        return True
+    return isinstance(last, ast.If) and _always_returns(last.body) and _always_returns(last.orelse or [])
+
+
+def _converter_wraps(conv: ast.expr, module: Optional[ast.Module], where: str, _depth: int = 0) -> set[str]:
+    """What a converter can do with the value it is given, over all its paths: {'direct'} = hands the very object on,
+    {'container'} = builds a new container of the same elements, {'deepconv'} = builds a new value; several = it depends
+    on the value (the census row is then the join of the paths)."""
+    if _depth > 4:
+        raise TranslateError(f'{where}: converter definition chain too deep')
+    if isinstance(conv, ast.Name):
+        defs = _runtime_defs(module, conv.id) if module is not None else []
+        if not defs:
+            if conv.id in ('set', 'list', 'dict'):
+                return {'container'}           # the builtin: a new container holding the same elements
+            raise TranslateError(f'{where}: unknown attrs converter {conv.id}')
+        if len(defs) != 1:
+            raise TranslateError(f'{where}: converter {conv.id} has {len(defs)} run-time definitions')
+        d = defs[0]
+        if isinstance(d, ast.FunctionDef):
+            return _converter_wraps_fn(d, module, f'{where} ({conv.id})')
+        if isinstance(d, ast.ClassDef):
+            raise TranslateError(f'{where}: converter {conv.id} is a class')
+        return _converter_wraps(d, module, where, _depth + 1)           # `name = <expr>`
+    if isinstance(conv, ast.Lambda):
+        return _converter_wraps_fn(conv, module, where)
+    raise TranslateError(f'{where}: unknown attrs converter `{ast.unparse(conv)[:60]}`')
+
+
+def _converter_wraps_fn(fn: ast.FunctionDef | ast.Lambda, module: Optional[ast.Module], where: str) -> set[str]:
+    x, res = _fn_result(fn, where)
+
+    def mentions(e: ast.AST) -> bool:
+        return any(isinstance(n, ast.Name) and n.id == x for n in ast.walk(e))
+
+    def shadowed(name: str) -> bool:
+        return module is not None and bool(_runtime_defs(module, name))
+
+    def go(e: ast.expr) -> set[str]:
+        if isinstance(e, ast.Name) and e.id == x:
+            return {'direct'}
+        if not mentions(e):
+            if isinstance(e, (ast.Constant, ast.Call, ast.List, ast.Set, ast.Dict, ast.Tuple)):
+                return set()                   # a constant / an object built here: nothing of the argument is handed on
+            raise TranslateError(f'{where}: unrecognised converter result `{ast.unparse(e)[:60]}`')
+        if isinstance(e, ast.IfExp):
+            return go(e.body) | go(e.orelse)
+        if isinstance(e, ast.BoolOp) and all(not isinstance(v, ast.NamedExpr) for v in e.values):
+            out: set[str] = set()
+            for v in e.values:                 # `x or set()`, `x and set(x)`: any operand may be the result
+                out |= go(v)
+            return out
+        if isinstance(e, ast.Call) and isinstance(e.func, ast.Name) and e.func.id in ('set', 'list', 'dict') \
+                and not shadowed(e.func.id) and len(e.args) == 1 and not e.keywords and go(e.args[0]) <= {'direct', 'container'}:
+            return {'container'}
+        if isinstance(e, ast.Call) and isinstance(e.func, ast.Attribute) and e.func.attr == 'copy' and not e.args \
+                and not e.keywords and isinstance(e.func.value, ast.Name) and e.func.value.id == x:
+            return {'container'}               # set.copy() / list.copy() / dict.copy(): shallow
+        if isinstance(e, (ast.ListComp, ast.SetComp)) and len(e.generators) == 1 and not e.generators[0].ifs \
+                and isinstance(e.generators[0].iter, ast.Name) and e.generators[0].iter.id == x \
+                and isinstance(e.generators[0].target, ast.Name) and isinstance(e.elt, ast.Name) \
+                and e.elt.id == e.generators[0].target.id:
+            return {'container'}
+        if isinstance(e, ast.Starred):
+            raise TranslateError(f'{where}: starred converter result')
+        if isinstance(e, (ast.List, ast.Set)) and len(e.elts) == 1 and isinstance(e.elts[0], ast.Starred) \
+                and isinstance(e.elts[0].value, ast.Name) and e.elts[0].value.id == x:
+            return {'container'}               # [*x] / {*x}
+        raise TranslateError(f'{where}: unrecognised converter result `{ast.unparse(e)[:60]}`')
+    out = go(res)
+    return out or {'container'}
+
+
+def _validator_is_pure(v: ast.expr, module: Optional[ast.Module], where: str, _depth: int = 0) -> None:
+    """A validator may only look and raise: `attrs.validators.*` combinators over classes and over module-level functions
+    whose body is nothing but `if ...: raise ...`."""
+    if _depth > 4:
+        raise TranslateError(f'{where}: validator nesting too deep')
+    if isinstance(v, ast.Call):
+        f = ast.unparse(v.func)
+        if not f.startswith('attrs.validators.') or v.keywords and any(k.arg is None for k in v.keywords):
+            raise TranslateError(f'{where}: unknown attrs validator `{f}`')
+        for a in list(v.args) + [k.value for k in v.keywords]:
+            _validator_is_pure(a, module, where, _depth + 1)
+        return
+    if isinstance(v, (ast.List, ast.Tuple)):
+        for a in v.elts:
+            _validator_is_pure(a, module, where, _depth + 1)
+        return
+    if isinstance(v, ast.Attribute) and ast.unparse(v).startswith('attrs.validators.'):
+        return
+    if isinstance(v, ast.Constant):
+        return
+    if isinstance(v, ast.Name):
+        defs = _runtime_defs(module, v.id) if module is not None else []
+        if len(defs) == 1 and isinstance(defs[0], ast.ClassDef):
+            return                              # instance_of(Vec)
+        if len(defs) == 1 and isinstance(defs[0], ast.FunctionDef):
+            def only_raises(stmts: list[ast.stmt]) -> bool:
+                for st in stmts:
+                    if isinstance(st, ast.Expr) and isinstance(st.value, ast.Constant) or isinstance(st, (ast.Raise, ast.Pass)):
+                        continue
+                    if isinstance(st, ast.If) and only_raises(st.body) and only_raises(st.orelse) \
+                            and not any(isinstance(n, (ast.NamedExpr, ast.Await, ast.Yield)) for n in ast.walk(st.test)):
+                        continue
+                    return False
+                return True
+            if only_raises(defs[0].body):
+                return
+            raise TranslateError(f'{where}: validator {v.id} does more than look and raise')
+        if not defs and v.id in ('int', 'str', 'float', 'bool', 'list', 'set', 'dict', 'tuple', 'Vec', 'Angle', 'Matrix'):
+            return
+        raise TranslateError(f'{where}: unknown validator name {v.id}')
+    raise TranslateError(f'{where}: unknown attrs validator `{ast.unparse(v)[:60]}`')
+
+
+def _default_is_unshared(e: ast.expr, imm_kind: bool, converted: bool, where: str) -> None:
+    """The default VALUE of an attrs field is one object shared by every instance that does not give the field: it must
+    be immutable (a constant, a tuple of constants, an enum member / an instance of a frozen class for a field of an
+    immutable kind), or be rebuilt by a copying converter."""
+    def const(x: ast.expr) -> bool:
+        return isinstance(x, ast.Constant) or (isinstance(x, ast.UnaryOp) and isinstance(x.operand, ast.Constant)) \
+            or (isinstance(x, ast.Tuple) and all(const(y) for y in x.elts))
+    if const(e):
+        return
+    if imm_kind and (isinstance(e, ast.Attribute) or (isinstance(e, ast.Call) and isinstance(e.func, ast.Name))):
+        return
+    if converted and isinstance(e, (ast.List, ast.Set, ast.Dict)) and not (e.elts if not isinstance(e, ast.Dict) else e.keys):
+        return
+    raise TranslateError(f'{where}: the default `{ast.unparse(e)[:60]}` is one mutable object shared by all instances')
+
+
+def _factory_builds_new(e: ast.expr, where: str) -> None:
+    if isinstance(e, ast.Name):
+        return                                  # a class / builtin called for every instance
+    if isinstance(e, ast.Lambda) and not e.args.args and isinstance(e.body, (ast.Call, ast.List, ast.Set, ast.Dict, ast.ListComp)):
+        return
+    raise TranslateError(f'{where}: unrecognised attrs factory `{ast.unparse(e)[:60]}`')
+
+
 class ClassInfo:
     """fields (ordered), kinds, and for each constructor parameter: the field it feeds and the wrap applied."""
 
-    def __init__(self, cls: ast.ClassDef, want_feeds: bool = True) -> None:
+    def __init__(self, cls: ast.ClassDef, want_feeds: bool = True, module: Optional[ast.Module] = None) -> None:
         self.name = cls.name
         self.node = cls
+        self.wrap_alt: dict[str, str] = {}       # attrs field -> the BETTER wrap its converter applies on some paths only
         ann = _class_annotations(cls)
         self.params: list[str] = []                       # constructor parameters in order (without self)
         self.kwonly: list[str] = []
@@ -119,25 +337,54 @@ class ClassInfo:
         self.props: dict[str, ast.expr] = _properties(cls)                    # read-only view: property -> returned expression
         if _is_attrs(cls):
             self.fields = []
+            for d in cls.decorator_list:
+                if isinstance(d, ast.Call):
+                    for kw in d.keywords:
+                        if kw.arg not in _DEFINE_KEYWORDS:
+                            raise TranslateError(f'{cls.name}: attrs.define({kw.arg}=...) not supported')
+                        if kw.arg in ('kw_only', 'init') and not (isinstance(kw.value, ast.Constant) and kw.value.value is (kw.arg == 'init')):
+                            raise TranslateError(f'{cls.name}: attrs.define({kw.arg}={ast.unparse(kw.value)}) not supported')
             for n in cls.body:
                 if isinstance(n, ast.AnnAssign) and isinstance(n.target, ast.Name):
                     f = n.target.id
                     self.fields.append(f)
                     self.ann[f] = ast.unparse(n.annotation)
+                    where = f'{cls.name}.{f}'
+                    try:
+                        imm_kind = kind_of(cls.name, f, self.ann[f]) in ('KImm', 'KId')
+                    except TranslateError:
+                        imm_kind = False
                     wrap = 'direct'
-                    if n.value is not None and isinstance(n.value, ast.Call) and ast.unparse(n.value.func) == 'attrs.field':
-                        for kw in n.value.keywords:
-                            if kw.arg == 'converter':
-                                if ast.unparse(kw.value) in ('_conv_visgroups', 'set', 'list'):
-                                    wrap = 'container'
+                    if n.value is not None and isinstance(n.value, ast.Call) and ast.unparse(n.value.func) in ('attrs.field', 'attrs.ib', 'attr.ib'):
+                        if n.value.args:
+                            raise TranslateError(f'{where}: positional arguments of attrs.field')
+                        kws = {kw.arg: kw.value for kw in n.value.keywords}
+                        for k, v in kws.items():
+                            if k == 'converter':
+                                wraps = _converter_wraps(v, module, where)
+                                wrap = min(wraps, key=_WRAP_ORDER.index)         # the weakest path decides the row
+                                if len(wraps) > 1:
+                                    self.wrap_alt[f] = max(wraps, key=_WRAP_ORDER.index)
+                            elif k == 'validator':
+                                _validator_is_pure(v, module, where)
+                            elif k == 'default':
+                                if isinstance(v, ast.Call) and ast.unparse(v.func) == 'attrs.Factory' and len(v.args) == 1 and not v.keywords:
+                                    _factory_builds_new(v.args[0], where)
                                 else:
-                                    raise TranslateError(f'{cls.name}.{f}: unknown attrs converter {ast.unparse(kw.value)}')
-                            elif kw.arg == 'init':
-                                raise TranslateError(f'{cls.name}.{f}: attrs init= not supported')
+                                    _default_is_unshared(v, imm_kind, 'converter' in kws, where)
+                            elif k == 'factory':
+                                _factory_builds_new(v, where)
+                            elif k in _FIELD_KEYWORDS_IGNORED:
+                                pass
+                            else:                      # init=, kw_only=, alias=, on_setattr= change the constructor itself
+                                raise TranslateError(f'{where}: attrs.field({k}=...) not supported')
+                    elif n.value is not None:
+                        _default_is_unshared(n.value, imm_kind, False, where)
                     if f == 'id' and cls.name in ID_CLASSES:
                         wrap = 'newid'
                     self.params.append(f)
                     self.feeds[f] = (f, wrap)
+            self._attrs_post_init(cls)
             return
         init = _method(cls, '__init__')
         a = init.args
@@ -224,6 +471,34 @@ class ClassInfo:
                     if ff == f and pann.get(p):
                         a0 = pann[p]
             self.ann[f] = a0
+
+    def _attrs_post_init(self, cls: ast.ClassDef) -> None:
+        """`__attrs_post_init__` runs at the end of the generated constructor: every statement must be a store
+        `self.F = <something built from self.F>` that is recognised (ID allocation, a copying re-wrap of the same field)."""
+        for n in cls.body:
+            if isinstance(n, ast.FunctionDef) and n.name in ('__attrs_pre_init__', '__init__', '__new__', '__setattr__'):
+                raise TranslateError(f'{cls.name}.{n.name}: not supported on an attrs class')
+        posts = [n for n in cls.body if isinstance(n, ast.FunctionDef) and n.name == '__attrs_post_init__']
+        if len(posts) > 1:
+            raise TranslateError(f'{cls.name}: several __attrs_post_init__')
+        for st in (posts[0].body if posts else []):
+            if isinstance(st, ast.Expr) and isinstance(st.value, ast.Constant) or isinstance(st, ast.Pass):
+                continue
+            f = _self_attr(st.targets[0]) if isinstance(st, ast.Assign) and len(st.targets) == 1 else None
+            v = st.value if isinstance(st, ast.Assign) else None
+            if f is None or f not in self.feeds or not isinstance(v, ast.Call) or len(v.args) != 1 or v.keywords \
+                    or _self_attr(v.args[0]) != f:
+                raise TranslateError(f'{cls.name}.__attrs_post_init__: unrecognised statement `{ast.unparse(st)[:60]}`')
+            fn = ast.unparse(v.func)
+            if fn.endswith('.get_id') and _self_attr(v.func.value.value if isinstance(v.func, ast.Attribute)      # type: ignore[attr-defined]
+                                                      and isinstance(v.func.value, ast.Attribute) else v) in ('map', 'vmf'):
+                self.feeds[f] = (f, 'newid')
+            elif fn in ('list', 'set', 'dict'):
+                if self.feeds[f][1] == 'direct':
+                    self.feeds[f] = (f, 'container')
+                self.wrap_alt.pop(f, None)
+            else:
+                raise TranslateError(f'{cls.name}.__attrs_post_init__: unrecognised statement `{ast.unparse(st)[:60]}`')
 
     def _feed(self, v: ast.expr, params: set[str], local: dict[str, ast.expr],
               spec: Optional['Spec'] = None) -> Optional[tuple[str, str]]:
@@ -1168,6 +1443,16 @@ class CopyAnalysis:
             if ha in rank and hb in rank:
                 how = ha if rank[ha] <= rank[hb] else hb
                 cen.cond_parts[field] = (ha, hb)
+        elif field in info.wrap_alt and wrap == info.feeds.get(field, (field, ''))[1]:
+            # the field's CONVERTER copies on some of its paths only (`x if isinstance(x, set) else set(x)`): the row is the
+            # weaker path (that is `wrap`); the pair is recorded like a conditional of copy() itself (cond_rows)
+            rank = {'HShare': 0, 'HShallow': 1, 'HDeep': 2}
+            hb = self.final_how(info, field, self.classify(e, src, env, params, label), info.wrap_alt[field], label)
+            self.join_parts = None
+            if how in rank and hb in rank and how != hb:
+                how, hb = (how, hb) if rank[how] <= rank[hb] else (hb, how)
+                cen.cond_parts[field] = (how, hb)
+                cen.conditional.add(field)
         return how
 
     def final_how(self, info: ClassInfo, field: str, arg: str, wrap: str, label: str) -> str:
@@ -1788,8 +2073,8 @@ VMF_CLASSES = ['Camera', 'Cordon', 'VisGroup', 'Solid', 'UVAxis', 'DispVertex', 
 def translate() -> tuple[str, dict]:
     vtree = ast.parse(src_text('vmf.py'))
     ktree = ast.parse(src_text('keyvalues.py'))
-    classes = {n: ClassInfo(_find_class(vtree, n)) for n in VMF_CLASSES}
-    kv_info = ClassInfo(_find_class(ktree, 'Keyvalues'), want_feeds=False)
+    classes = {n: ClassInfo(_find_class(vtree, n), module=vtree) for n in VMF_CLASSES}
+    kv_info = ClassInfo(_find_class(ktree, 'Keyvalues'), want_feeds=False, module=ktree)
     kv_info.ann.update({'_folded_name': 'Optional[str]', '_real_name': 'Optional[str]', 'line_num': 'Optional[int]'})
     an = CopyAnalysis(vtree, classes)
     an.analyse_copy_values()
